@@ -192,6 +192,11 @@ func (e extraHeaderSigner) Headers() jws.Headers {
 	return h
 }
 
+// WithHeaders is the key's signer with further protected header members.
+func (s *Signer) WithHeaders(extra map[string]interface{}) signutil.Signer {
+	return extraHeaderSigner{Signer: s.signer(), extra: extra}
+}
+
 // SignWithHeaders signs the model with further protected header members.
 func (s *Signer) SignWithHeaders(model interface{}, extra map[string]interface{}) string {
 	c, err := signutil.SignModel(model, extraHeaderSigner{Signer: s.signer(), extra: extra})
